@@ -24,7 +24,8 @@ import (
 var generatorPkgs = []string{"./generator", "./features/fastreflection", "./features/fastreflection/copied", "./features/protoc", "./features/protoc/genid", "./features/protoc/version", "./cmd/protoc-gen-go-pulsar"}
 
 var forbiddenPkgs = map[string]string{"time": "wall-clock time", "math/rand": "random numbers", "crypto/rand": "random numbers", "os/user": "ambient state", "net": "network"}
-var forbiddenFuncs = map[string]string{"os.Getenv": "environment", "os.LookupEnv": "environment", "os.Environ": "environment", "os.Hostname": "host name", "os.Getwd": "working directory", "os.Getpid": "process id", "os.Executable": "executable path", "runtime.Caller": "call-stack paths", "runtime.Callers": "call-stack paths", "os.ReadFile": "file system", "os.Open": "file system"}
+var forbiddenFuncs = map[string]string{"os.Args": "process arguments / executable name", "runtime.GOOS": "host platform", "runtime.GOARCH": "host platform", "runtime.NumCPU": "host", "runtime.Version": "toolchain version", "runtime.GOROOT": "host paths", "runtime/debug.ReadBuildInfo": "build info", "os.Getuid": "process state", "os.Getppid": "process state", "os.TempDir": "host paths", "os.UserHomeDir": "host paths", "os.Stat": "file system", "os.ReadDir": "file system",
+	"os.Getenv": "environment", "os.LookupEnv": "environment", "os.Environ": "environment", "os.Hostname": "host name", "os.Getwd": "working directory", "os.Getpid": "process id", "os.Executable": "executable path", "runtime.Caller": "call-stack paths", "runtime.Callers": "call-stack paths", "os.ReadFile": "file system", "os.Open": "file system"}
 
 func init() {
 	checks["C13"] = func(rep *Report) error {
